@@ -107,6 +107,27 @@ fn handle(parts: &[&str]) -> String {
             walk(src.root(), &mut out);
             format!("ok {}", out.join(" "))
         }
+        "rawtexts" => {
+            // for every raw element of the parse tree: block flag, language and the text lines Typst extracts (after its dedent rule)
+            let s = unhex(parts[1]);
+            let src = Source::detached(s);
+            let mut out = vec![];
+            fn walk(n: &SyntaxNode, out: &mut Vec<String>) {
+                if let Some(raw) = n.cast::<ast::Raw>() {
+                    let mut d = format!("block={};lang={};", raw.block(), raw.lang().map(|l| l.get().to_string()).unwrap_or_default());
+                    for l in raw.lines() {
+                        d.push_str(l.get().as_str());
+                        d.push('\u{1}');
+                    }
+                    out.push(hex(&d));
+                }
+                for c in n.children() {
+                    walk(c, out);
+                }
+            }
+            walk(src.root(), &mut out);
+            format!("ok {}", out.join(" "))
+        }
         "newline_table" => {
             let mut v = vec![];
             for c in 0..=0x10FFFFu32 {
